@@ -217,10 +217,16 @@ func (f *FnVC) block(b *ssa.BasicBlock) {
 		}
 	}
 	rc := f.declConst(fmt.Sprintf("reach_%d", b.Index), "Bool")
-	f.fact(sEq(rc, reachIn))
+	li := f.loops[b.Index]
+	if li != nil {
+		// loop head = an arbitrary iteration: reachable only if the loop was entered, but NOT conversely --
+		// otherwise the invariant assumed at the head could be used to prove the invariant on entry.
+		f.fact(sImp(rc, reachIn))
+	} else {
+		f.fact(sEq(rc, reachIn))
+	}
 	f.reach[b.Index] = rc
 
-	li := f.loops[b.Index]
 	if li != nil {
 		// invariant must hold on entry
 		subst := map[ssa.Value]TV{}
@@ -243,9 +249,11 @@ func (f *FnVC) block(b *ssa.BasicBlock) {
 			subst[phi] = tvp
 		}
 		env := f.loopEnv(li, in, subst)
+		f.reach[b.Index] = reachIn
 		for _, inv := range li.spec.Invariants {
 			f.oblige("inv.entry", fmt.Sprintf("loop %d invariant %s", li.ord, inv.Text), f.trBool(env, inv.E), b.Instrs[0].Pos())
 		}
+		f.reach[b.Index] = rc
 		// havoc
 		f.st = &State{f: f, m: map[string]string{}, kind: stLoop, id: fmt.Sprintf("loop%d", li.ord), loop: li, entry: in}
 		// nextref only grows
@@ -352,6 +360,17 @@ func (f *FnVC) finishLoops() {
 			}
 			if all || wholeOK[h.heap] || f.c == nil || f.c.AssignsAll {
 				continue
+			}
+			// objects allocated by this function before the loop and not written (nor leaked) inside it keep their contents
+			for _, a := range f.allocsBefore(li) {
+				if !f.allocTouchedIn(a, li) {
+					for _, ah := range f.allocHeaps(a) {
+						if ah == h.heap {
+							ref := f.val(a).T
+							f.fact(sImp(f.reach[li.head.Index], sEq(sSel(h.term, ref), sSel(h.entry.get(h.heap), ref))))
+						}
+					}
+				}
 			}
 			// implicit frame invariant: outside the assigns set the heap still has its entry contents
 			inv := func(H string) string { return f.frameCond(h.heap, H, allowed[h.heap], nr0) }
@@ -1267,3 +1286,74 @@ func (f *FnVC) ret(x *ssa.Return) {
 }
 
 func strJoin(xs []string) string { return strings.Join(xs, " ") }
+
+// allocsBefore: Alloc instructions in blocks that dominate the loop head (outside the loop).
+func (f *FnVC) allocsBefore(li *loopInfo) []*ssa.Alloc {
+	var out []*ssa.Alloc
+	for _, b := range f.fn.Blocks {
+		if li.blocks[b.Index] || !b.Dominates(li.head) {
+			continue
+		}
+		for _, in := range b.Instrs {
+			if a, ok := in.(*ssa.Alloc); ok {
+				out = append(out, a)
+			}
+		}
+	}
+	return out
+}
+
+func (f *FnVC) allocHeaps(a *ssa.Alloc) []string {
+	elem := a.Type().(*types.Pointer).Elem()
+	switch u := elem.Underlying().(type) {
+	case *types.Struct:
+		var hs []string
+		for i := 0; i < u.NumFields(); i++ {
+			h, _ := f.fieldHeap(elem, i)
+			hs = append(hs, h)
+		}
+		return hs
+	case *types.Array:
+		return []string{f.elemHeap(u.Elem())}
+	}
+	return []string{f.cellHeap(elem)}
+}
+
+// allocTouchedIn: may the object allocated by a be written inside the loop (or has its address leaked anywhere)?
+func (f *FnVC) allocTouchedIn(a *ssa.Alloc, li *loopInfo) bool {
+	var visit func(v ssa.Value, depth int) bool
+	visit = func(v ssa.Value, depth int) bool {
+		refs := v.Referrers()
+		if refs == nil {
+			return true
+		}
+		for _, r := range *refs {
+			switch x := r.(type) {
+			case *ssa.DebugRef:
+			case *ssa.UnOp:
+				if x.Op != token.MUL {
+					return true
+				}
+			case *ssa.Store:
+				if x.Val == v {
+					return true // address stored somewhere: leaked
+				}
+				if li.blocks[x.Block().Index] {
+					return true
+				}
+			case *ssa.FieldAddr:
+				if visit(x, depth+1) {
+					return true
+				}
+			case *ssa.IndexAddr:
+				if x.X != v || visit(x, depth+1) {
+					return true
+				}
+			default:
+				return true // slices, calls, phis, ...: treat as leaked
+			}
+		}
+		return false
+	}
+	return visit(a, 0)
+}
